@@ -304,6 +304,11 @@ class _Dialect(type):
         gen_cls = klass.generator_class
         supported = getattr(gen_cls, "SUPPORTED_JSON_PATH_PARTS", None)
         if isinstance(supported, set):
+            if "TRANSFORMS" not in gen_cls.__dict__:
+                # The generator inherits its TRANSFORMS: copy them first so that the entries are
+                # removed for this class only and not for the generator class they come from
+                gen_cls.TRANSFORMS = dict(gen_cls.TRANSFORMS)
+
             for part in ALL_JSON_PATH_PARTS - supported:
                 gen_cls.TRANSFORMS.pop(part, None)
 
